@@ -350,7 +350,9 @@ def rule_lookahead(ctx: Ctx, typer: Typer):
     C = P.cls("AlphaVectorPolicy")
     v = C.methods["value"]
     t = X.returns(v)
-    ok = t.op == "call" and ext_name(t.args[0]) == "numpy.max" and any(ext_name(x.args[0]) == "numpy.einsum" for x in walk(t) if x.op == "call")
+    # np.max(X) is normalised to X.max() (canon.py)
+    ok = t.op == "call" and (ext_name(t.args[0]) == "numpy.max" or (t.args[0].op == "attr" and t.args[0].args[1] == "max")) \
+        and any(ext_name(x.args[0]) == "numpy.einsum" for x in walk(t) if x.op == "call")
     ctx.check(ok, "LA-1", v, v.node, "alpha-vector value = max over alpha vectors of <alpha, b>", "", "value is not the upper envelope of the alpha vectors")
     SV = Snips(v)
     es = [(n, e) for n, e in SV.find("np.einsum(E_spec, self.alpha_vectors, ANY)") if isinstance(n, ast.Call)]
